@@ -138,7 +138,7 @@ func profilesFor(id string) []*Profile {
 		p.Obs = ObsSpec{Branches: true, RevParse: true, Reflog: true}
 		// the branch commands in every spelling the command line grammar produces (surplus and combined arguments)
 		p.RawOnly = []string{"branch", "switch", "update-ref", "rev-parse"}
-		withW(p, "raw", 8)
+		withW(p, "raw", 8, "revparse", 6)
 		return []*Profile{p}
 	case "C11":
 		p := baseProfile("reflog")
